@@ -101,20 +101,56 @@ theorem join_two_waiters_stuck : ∃ sched : List (Actor × Env),
   ⟨[(.j 0, .callWait), (.j 0, .go), (.j 1, .callWait), (.j 1, .go), (.j 0, .go), (.j 1, .go), (.j 0, .go), (.j 1, .go),
     (.fin, .retVal 1), (.fin, .go), (.fin, .go), (.fin, .go), (.fin, .go), (.j 1, .go)], by decide⟩
 
-/-- … and it stays parked for ever: once the finishing side is done, nothing any actor does delivers the token. -/
+/-- … and it never returns: once the finishing side is done, nothing any actor does delivers the token; the joiner
+    stays parked for ever (or is unwound by its own cancellation). -/
 theorem join_lost_waiter_never_wakes (s : St) (t : Tid) (k : K) (b : Bid) (sched : List (Actor × Env))
     (hf : s.fpc = .done) (hp : s.pcs t = .wpark k b) (ht : s.sh.tok b = false) :
-    (run s sched).fpc = .done ∧ (run s sched).pcs t = .wpark k b ∧ (run s sched).sh.tok b = false := by
+    (run s sched).fpc = .done ∧ ((run s sched).pcs t = .wpark k b ∨ (run s sched).pcs t = .unwound) ∧
+    (run s sched).sh.tok b = false := by
+  have hp' : s.pcs t = .wpark k b ∨ s.pcs t = .unwound := Or.inl hp
+  clear hp
   induction sched generalizing s with
-  | nil => exact ⟨hf, hp, ht⟩
+  | nil => exact ⟨hf, hp', ht⟩
   | cons ae r ih =>
     obtain ⟨a, e⟩ := ae
     simp only [run]
     split
     · next s' hs =>
-      obtain ⟨h1, h2, h3⟩ := stuck_step s s' a e t k b hs hf hp ht
-      exact ih s' h1 h2 h3
-    · exact ih s hf hp ht
+      obtain ⟨h1, h2, h3⟩ := stuck_step s s' a e t k b hs hf hp' ht
+      exact ih s' h1 h3 h2
+    · exact ih s hf ht hp'
+
+/-- **A joiner that leaves by cancellation reports nothing**: when the JOINER itself is cancelled while it is blocked
+    in `wait()` / `join()`, the Cancel panic unwinds it (`unwound`); from then on, whatever anybody does, that call
+    never returns: the joiner is never again in a state where `wait()` has returned, `is_done()` was answered or
+    `join()` delivered a result. (With `join_after_finish` / `wait_is_done_not_early`: every call that does return has
+    observed the completion; a cancelled one returns nothing – in particular never `Err(Cancel)` for a target that is
+    still running.) -/
+theorem cancelled_joiner_reports_nothing (s : St) (t : Tid) (sched : List (Actor × Env)) (hu : s.pcs t = .unwound) :
+    (run s sched).pcs t = .unwound := by
+  induction sched generalizing s with
+  | nil => exact hu
+  | cons ae r ih =>
+    obtain ⟨a, e⟩ := ae
+    simp only [run]
+    split
+    · next s' hs =>
+      apply ih s'
+      cases a with
+      | fin =>
+        simp only [step] at hs
+        split at hs <;> try contradiction
+        simp only [Option.some.injEq] at hs; subst hs; exact hu
+      | j u =>
+        simp only [step] at hs
+        split at hs <;> try contradiction
+        split at hs <;> try contradiction
+        rename_i sh' pc' hts
+        simp only [Option.some.injEq] at hs; subst hs
+        by_cases hut : u = t
+        · subst hut; rw [hu] at hts; simp [jstep] at hts
+        · simp [upd, hu]; intro h; exact absurd h.symm hut
+    · exact ih s hu
 
 -- non-vacuity: join() registers, parks, is woken by the finishing side and returns the value
 example : (run (init 1) [(.j 0, .callJoin), (.j 0, .go), (.j 0, .go), (.j 0, .go), (.fin, .retVal 7), (.fin, .go), (.fin, .go),
@@ -124,6 +160,12 @@ example : (run (init 1) [(.j 0, .callJoin), (.j 0, .go), (.j 0, .go), (.j 0, .go
     (.fin, .go), (.fin, .go)]).pcs 0 = .wpark .join 0 ∧
     (run (init 1) [(.j 0, .callJoin), (.j 0, .go), (.j 0, .go), (.j 0, .go), (.fin, .retVal 7), (.fin, .go), (.fin, .go),
     (.fin, .go), (.fin, .go)]).fpc = .done := by decide
+-- a joiner cancelled while blocked in join() on a running target is unwound; the target later finishes normally and
+-- (the handle being gone) nobody was told anything
+example : (run (init 1) [(.j 0, .callJoin), (.j 0, .go), (.j 0, .go), (.j 0, .go), (.j 0, .abort)]).pcs 0 = .unwound ∧
+    (run (init 1) [(.j 0, .callJoin), (.j 0, .go), (.j 0, .go), (.j 0, .go), (.j 0, .abort)]).sh.state = true := by decide
+example : (run (init 1) [(.j 0, .callJoin), (.j 0, .go), (.j 0, .go), (.j 0, .go), (.j 0, .abort), (.fin, .retVal 7), (.fin, .go),
+    (.fin, .go), (.fin, .go), (.fin, .go), (.j 0, .go)]).pcs 0 = .unwound := by decide
 -- panic payload and cancellation reach the joiner
 example : (run (init 1) [(.fin, .panicWith 3), (.fin, .go), (.fin, .go), (.fin, .go), (.j 0, .callJoin), (.j 0, .go), (.j 0, .go),
     (.j 0, .go)]).pcs 0 = .idle (.joined (.err 3)) := by decide
